@@ -53,6 +53,12 @@ func (rt *runtime) newNativeFunctionObject(name, file string, line int, native n
 	o.defineOwnProperty("caller", property{
 		value: propertyGetSet{
 			rt.newNativeFunctionProperty("get", "internal", 0, func(fc FunctionCall) Value {
+				// Copy() shares this getter with the copy: take the runtime and the
+				// function from the call, not from the runtime that created the getter.
+				rt, o := fc.runtime, fc.This.object()
+				if o == nil {
+					return nullValue
+				}
 				for sc := rt.scope; sc != nil; sc = sc.outer {
 					if sc.frame.fn == o {
 						if sc.outer == nil || sc.outer.frame.fn == nil {
@@ -129,6 +135,12 @@ func (rt *runtime) newNodeFunctionObject(node *nodeFunctionLiteral, stash stashe
 	o.defineOwnProperty("caller", property{
 		value: propertyGetSet{
 			rt.newNativeFunction("get", "internal", 0, func(fc FunctionCall) Value {
+				// Copy() shares this getter with the copy: take the runtime and the
+				// function from the call, not from the runtime that created the getter.
+				rt, o := fc.runtime, fc.This.object()
+				if o == nil {
+					return nullValue
+				}
 				for sc := rt.scope; sc != nil; sc = sc.outer {
 					if sc.frame.fn == o {
 						if sc.outer == nil || sc.outer.frame.fn == nil {
